@@ -222,13 +222,23 @@ Theorem C11_cleanup_entries_failed :
 Proof. exact cleanup_entries_failed. Qed.
 Print Assumptions C11_cleanup_entries_failed.
 
-(* scandir/readdir with live entries: finite sweep, n <= 6 entries, every
-   number j <= n + 1 of uv_fs_scandir_next calls (bound in the statement) *)
-Theorem C11_cleanup_entries_bounded :
-  forall n cb big k stt, In n (seq 0 7) -> In (k, stt) (entry_states n) ->
-  cleaned_b k cb big stt = true.
-Proof. exact cleanup_entries_bounded. Qed.
-Print Assumptions C11_cleanup_entries_bounded.
+(* scandir / readdir with live entries, for EVERY number n of entries and EVERY
+   number j of uv_fs_scandir_next calls (also beyond the end): after
+   uv_fs_req_cleanup no entry, no entry array, no name and no path is live,
+   nothing was freed twice, all four pointers are NULL.  By induction over the
+   entry list (release_dents_range, sc_iter). *)
+Theorem C11_cleanup_entries_all :
+  forall n j cb big,
+  cleaned KScandir cb big (LIterated n j) /\
+  cleaned KScandir cb big (LDonePool true n) /\
+  cleaned KReaddir cb big (LDonePool true n).
+Proof.
+  intros n j cb big. split; [|split].
+  - exact (cleanup_scandir_iterated n j cb big).
+  - exact (cleanup_scandir_done n cb big).
+  - exact (cleanup_readdir_done n cb big).
+Qed.
+Print Assumptions C11_cleanup_entries_all.
 
 (* any state, any heap: a second uv_fs_req_cleanup changes nothing *)
 Theorem C11_cleanup_any_state :
